@@ -9,40 +9,48 @@ From EinxV Require Import Model.PyVal Gen.GenFreeze Proofs.PyValProofs Gen.GenTr
 Import ListNotations.
 
 (* equal keys are identical frozen values: a cache hit was compiled for exactly these arguments *)
-Theorem C06_typed_keys_separate : forall a b, key_eq true a b = true -> a = b.
+Theorem C06_typed_keys_separate : forall a b, key_eq ByTypeAndRepr a b = true -> a = b.
 Proof. exact typed_keys_separate. Qed.
 Print Assumptions C06_typed_keys_separate.
 
 (* hence any outcome that is a function of the frozen arguments is the same for a hit and a miss *)
 Corollary C06_cache_hit_is_transparent : forall (O : Type) (trace : fv -> O) a b,
-  key_eq true a b = true -> trace a = trace b.
+  key_eq ByTypeAndRepr a b = true -> trace a = trace b.
 Proof. intros O trace a b H. now rewrite (C06_typed_keys_separate a b H). Qed.
 
 (* the cache as a state machine (lookup by key equality, insert on a miss): for EVERY history of calls, starting from
    the empty cache, each call returns exactly what tracing its own arguments afresh returns - earlier calls do not matter *)
 Theorem C06_every_history_is_transparent : forall (O : Type) (trace : fv -> O) (history : list fv),
-  run O trace true [] history = map trace history.
+  run O trace ByTypeAndRepr [] history = map trace history.
 Proof. intros O trace h. apply cache_transparent_for_every_history. intros k o []. Qed.
 Print Assumptions C06_every_history_is_transparent.
 
 (* ... while with the untyped comparison of the pinned tree a history exists in which the second call gets the first one's result *)
 Theorem C06_untyped_history_refuted : exists (history : list fv),
-  run fv (fun a => a) false [] history <> map (fun a => a) history.
+  run fv (fun a => a) ByValue [] history <> map (fun a => a) history.
 Proof.
-  exists [FDict [("c"%string, FNum {| nt := TInt; integral := true; code := 2 |})];
-          FDict [("c"%string, FNum {| nt := TFloat; integral := true; code := 2 |})]].
+  exists [FDict [("c"%string, FNum {| nt := TInt; integral := true; code := 2; negz := false |})];
+          FDict [("c"%string, FNum {| nt := TFloat; integral := true; code := 2; negz := false |})]].
   vm_compute. discriminate.
 Qed.
 
 (* the source compares numbers together with their type *)
-Theorem C06_source_uses_typed_keys : gen_freeze_numbers_typed = true.
-Proof. reflexivity. Qed.
+Theorem C06_source_uses_typed_keys : gen_freeze_numbers_typed = true /\ gen_freeze_numbers_by_repr = true.
+Proof. split; reflexivity. Qed.
+
+(* comparing numbers by type and == alone does not separate either: 0.0 == -0.0 (the tree before fix 845e990) *)
+Theorem C06_signed_zero_refuted : exists a b, key_eq ByType a b = true /\ a <> b.
+Proof.
+  exists (FDict [("s"%string, FNum {| nt := TFloat; integral := true; code := 0; negz := false |})]),
+         (FDict [("s"%string, FNum {| nt := TFloat; integral := true; code := 0; negz := true |})]).
+  split; [reflexivity|discriminate].
+Qed.
 
 (* the untyped comparison of the pinned tree does not separate: c=2 and c=2.0 share a key *)
-Theorem C06_untyped_keys_refuted : exists a b, key_eq false a b = true /\ a <> b.
+Theorem C06_untyped_keys_refuted : exists a b, key_eq ByValue a b = true /\ a <> b.
 Proof.
-  exists (FDict [("c"%string, FNum {| nt := TInt; integral := true; code := 2 |})]),
-         (FDict [("c"%string, FNum {| nt := TFloat; integral := true; code := 2 |})]).
+  exists (FDict [("c"%string, FNum {| nt := TInt; integral := true; code := 2; negz := false |})]),
+         (FDict [("c"%string, FNum {| nt := TFloat; integral := true; code := 2; negz := false |})]).
   split; [reflexivity|discriminate].
 Qed.
 
